@@ -601,6 +601,7 @@ fn meaning_cases() -> Vec<(&'static str, &'static str, &'static str)> {
         ("(mod (X) (defun fact (N) (if (= N 1) 1 (* N (fact (- N 1))))) (fact X))", "(5)", "120"),
         ("(mod (X) (defmacro dbl (A) (qq (+ (unquote A) (unquote A)))) (dbl (* X 3)))", "(2)", "12"),
         ("(mod (X) (defconstant K 5) (defun-inline addk (A) (+ A K)) (addk (addk X)))", "(1)", "11"),
+        ("(mod (X) (defun QF (A) (list (q . A) A (q A B))) (QF X))", "(7)", "(65 7 (65 66))"),
         ("(mod (X) (defun-inline sel3 (((A B) C)) (list A B C)) (sel3 (list (list (+ X 1) (+ X 2)) (+ X 3))))", "(10)", "(11 12 13)"),
         ("(mod (X) (defun-inline selp (((A . B) . C)) (list A B C)) (selp (c (c (+ X 1) (+ X 2)) (+ X 3))))", "(10)", "(11 12 13)"),
         ("(mod (X) (defun-inline deep ((A (B (C D)) E)) (list A B C D E)) (deep (list 1 (list 2 (list 3 X)) 5)))", "(4)", "(1 2 3 4 5)"),
@@ -802,8 +803,60 @@ fn chk_tables() -> Option<Value> {
     None
 }
 
+// ---- C05: same source, same options => same bytes and the same user-visible symbols, whatever was
+// compiled before in the process and whichever thread compiles
+fn compile_bytes_and_symbols(src: &str) -> Result<(Vec<u8>, Vec<(String, String)>), String> {
+    use chialisp::classic::clvm_tools::clvmc::compile_clvm_text;
+    use chialisp::compiler::compiler::DefaultCompilerOpts;
+    use chialisp::compiler::comptypes::CompilerOpts;
+    use std::collections::HashMap;
+    use std::rc::Rc;
+    let mut a = clvmr::Allocator::new();
+    let opts: Rc<dyn CompilerOpts> = Rc::new(DefaultCompilerOpts::new("*replay*"));
+    let mut syms = HashMap::new();
+    let n = compile_clvm_text(&mut a, opts, &mut syms, src, "*replay*", true).map_err(|e| format!("{:?}", e))?;
+    let bytes = clvmr::serde::node_to_bytes(&a, n).map_err(|e| format!("{:?}", e))?;
+    let mut user: Vec<(String, String)> = syms.into_iter().filter(|(k, v)| !k.contains("_$_") && !v.contains("_$_")).collect();
+    user.sort();
+    Ok((bytes, user))
+}
+fn determinism_programs() -> Vec<String> {
+    let mut v: Vec<String> = vec![];
+    for (b, _, _) in meaning_cases() { for d in ["*standard-cl-21*", "*standard-cl-22*", "*standard-cl-23*"] { v.push(with_dialect(b, d)); } }
+    for d in ["*standard-cl-21*", "*standard-cl-22*", "*standard-cl-23*"] {
+        v.push(with_dialect("(mod (A B) (defun G (X) (lambda ((& X) Z) (+ X Z))) (a (G A) (list B)))", d));
+        v.push(with_dialect("(mod (X Y) (defun F (M N) (let ((S (+ M N)) (T (* M N))) (list (* S S) (* T T) (+ (* S S) (* T T)) (sha256 (* S S) (* T T))))) (F X Y))", d));
+        v.push(with_dialect("(mod (X) (defun H (A) (assign p (+ A 1) q (* p p) r (- q p) (list p q r (+ q r) (+ q r)))) (H X))", d));
+        v.push(with_dialect("(mod (X) (defun QF (A) (list (q . A) A (q A B))) (QF X))", d));
+        v.push(with_dialect("(mod (X Y) (defun M (A B) (list (* (+ A 1) (+ A 1)) (* (+ B 2) (+ B 2)) (- (+ A 1) (+ B 2)) (sha256 (+ A 1) (+ B 2)) (* (- A B) (- A B)) (+ (- A B) 3))) (M X Y))", d));
+    }
+    v
+}
+fn chk_determinism() -> Option<Value> {
+    let progs = determinism_programs();
+    // first pass: every program once
+    let first: Vec<Result<(Vec<u8>, Vec<(String, String)>), String>> = progs.iter().map(|p| catch_unwind({ let p = p.clone(); move || compile_bytes_and_symbols(&p) }).unwrap_or(Err("panic".into()))).collect();
+    // second pass in reverse order (different history, a failed compile in between), third pass on another thread
+    let _ = catch_unwind(|| compile_bytes_and_symbols("(mod (X) (include *standard-cl-23*) (+ X undefined_name))"));
+    for (i, p) in progs.iter().enumerate().rev() {
+        let again = catch_unwind({ let p = p.clone(); move || compile_bytes_and_symbols(&p) }).unwrap_or(Err("panic".into()));
+        if again.is_err() && first[i].is_err() { continue; }
+        if again != first[i] { return Some(hit(json!({"source": p, "history": "compiled a second time after other compilations (incl. a failed one)"}), format!("first: {}", first[i].as_ref().map(|x| x.0.iter().map(|b| format!("{:02x}", b)).collect::<String>()).unwrap_or_default()), format!("again: {}", again.as_ref().map(|x| x.0.iter().map(|b| format!("{:02x}", b)).collect::<String>()).unwrap_or_default()), "compile_clvm_text twice in one process: bytes or user-visible symbols differ")); }
+    }
+    let progs2 = progs.clone();
+    let threaded: Vec<Result<(Vec<u8>, Vec<(String, String)>), String>> = std::thread::spawn(move || progs2.iter().map(|p| catch_unwind({ let p = p.clone(); move || compile_bytes_and_symbols(&p) }).unwrap_or(Err("panic".into()))).collect()).join().ok()?;
+    for (i, p) in progs.iter().enumerate() {
+        if threaded[i].is_err() && first[i].is_err() { continue; }
+        if threaded[i] != first[i] { return Some(hit(json!({"source": p, "history": "compiled on a second thread"}), format!("{:?}", first[i].as_ref().map(|x| (x.0.len(), x.1.len()))), format!("{:?}", threaded[i].as_ref().map(|x| (x.0.len(), x.1.len()))), "compile_clvm_text on another thread: bytes or user-visible symbols differ")); }
+    }
+    None
+}
+
 pub fn search(name: &str, seed: u64) -> Value {
     match name {
+        "determinism" => {
+            chk_determinism().unwrap_or_else(|| nf(&format!("{} programs (cl21/cl22/cl23; functions, inlines, lets, assign, lambdas with captures, CSE candidates) compile to identical bytes and user-visible symbols when compiled again after other (also failed) compilations and on a second thread", determinism_programs().len())))
+        }
         "tables" | "prims_agree_with_kw" | "builders_select_same_rows_and_are_monotone" | "opcodes_pairwise_distinct" | "names_pairwise_distinct" | "selectors_agree" | "kw_rows_known_to_modern_compiler" | "stepper_constants_agree" => {
             chk_tables().unwrap_or_else(|| nf("run-time tables are mutually inverse per version, monotone, and agree with prims()"))
         }
@@ -890,7 +943,7 @@ pub fn search(name: &str, seed: u64) -> Value {
                 if skipped(&json!({"program": b, "dialect": d, "args": at})) { continue; }
                 if let Some(mut v) = chk_meaning(b, d, at, ex) { v["input"] = json!({"program": b, "dialect": d, "args": at}); return v; }
             } }
-            nf("18 programs (functions, inlines, nested destructuring in inline parameters, nested mod in main / in defun, destructuring, @ capture, rest arguments, let/let*, recursion, macro, constants) x cl21/cl23 return the hand-computed values")
+            nf("19 programs (functions, inlines, quoted atoms spelled like parameters, nested destructuring in inline parameters, nested mod in main / in defun, destructuring, @ capture, rest arguments, let/let*, recursion, macro, constants) x cl21/cl23 return the hand-computed values")
         }
         "opt_levels" => {
             let progs: Vec<(&str, Vec<&str>)> = vec![
